@@ -14,7 +14,8 @@ RULES_OF = {
     "C03": None,   # every rule, backend jax
     "C04": {"unpack-slot", "store-slot", "store-twice", "lengths-stored", "lengths-returned", "store-before-alloc", "layout-from-sort", "return-order"},
     "C05": {"store-slot", "store-twice", "lengths-stored"},
-    "C07": {"scheme-choice", "store-slot"},
+    "C06": {"scheme-guard", "scheme-choice", "store-slot"},
+    "C07": {"scheme-choice", "scheme-guard", "store-slot"},
     "C12": {"use-before-def", "unpack-slot", "store-slot", "lengths-stored", "lengths-returned", "topological", "complete", "layout-from-sort"},
     "C13": {"unpack-slot", "store-slot", "use-before-def", "lengths-stored", "lengths-returned", "return-order"},
     "C19": {"redefinition"},
@@ -38,9 +39,13 @@ def corrupt(trace, rnd):
     idx = [i for i, s in enumerate(t["stmts"]) if s["k"] in ("store", "unpackS", "def")]
     if not idx:
         return None, None
-    i = rnd.choice(idx)
+    guarded = [i for i in idx if t["stmts"][i]["k"] == "store" and t["stmts"][i].get("guard", {}).get("present")]
+    i = rnd.choice(guarded) if guarded and t.get("check_choice") and rnd.random() < 0.5 else rnd.choice(idx)
     s = t["stmts"][i]
-    if s["k"] == "store":
+    if i in guarded and t.get("check_choice"):
+        s["guard"]["consts"] = ["0.0"]
+        what = "guard threshold replaced by 0"
+    elif s["k"] == "store":
         s["slot"] = s["slot"] + 1
         what = "store slot + 1"
     elif s["k"] == "unpackS":
